@@ -775,6 +775,18 @@ func (x *Exec) strConst(s string) Term {
 		return tZero
 	}
 	id := x.ck.internString(s)
+	// length (and, for short strings, the bytes) of a literal are facts of every query
+	key := fmt.Sprintf("strfact:%d", id)
+	if _, ok := x.pre.seen[key]; !ok {
+		var sb strings.Builder
+		fmt.Fprintf(&sb, "(assert (= (slen %d) %d))", id, len(s))
+		if len(s) <= 32 {
+			for i := 0; i < len(s); i++ {
+				fmt.Fprintf(&sb, "\n(assert (= (sbyte %d %d) %d))", id, i, s[i])
+			}
+		}
+		x.pre.declare(key, sb.String())
+	}
 	return mkInt(int64(id))
 }
 
